@@ -246,4 +246,12 @@ def main(argv):
 
 
 if __name__ == "__main__":
-    main(sys.argv[1:])
+    try:
+        main(sys.argv[1:])
+    except SystemExit:
+        raise
+    except BaseException as e:  # anything unexpected in the driver itself is a harness error, never exit 0/1
+        import traceback
+        traceback.print_exc()
+        print(f"HARNESS-ERROR driver failed: {type(e).__name__}: {e}")
+        sys.exit(2)
